@@ -1,4 +1,5 @@
 import HyperModel.Proofs.Genesis
+import HyperModel.Model.Fees
 /-!
 # C27 Genesis state contains exactly the configured allocations and initial metadata
 
@@ -262,6 +263,56 @@ theorem zero_allocation_behaviour (root : (Bytes → Option Bytes) → Nat) (c :
       have : sumFor y.addr (allocs ++ [(⟨a, 0⟩ : Alloc)]) = sumFor y.addr allocs := by
         rw [sumFor_snoc]; simp
       simp only [this]
+
+/-! ### the fee bytes decoded by the fee-manager model of C13 (`Model/Fees.lean`) -/
+
+open HyperModel in
+theorem b2w_be64 (n : Nat) (h : n ≤ maxU64) (rest : Bytes) :
+    Fees.bytesToWords (be64 n ++ rest) = n :: Fees.bytesToWords rest := by
+  simp only [be64, List.cons_append, List.nil_append, Fees.bytesToWords, Fees.readBE64,
+    UInt8.toNat_ofNat']
+  simp only [maxU64] at h
+  congr 1
+  omega
+
+theorem b2w_zeros (k : Nat) (rest : Bytes) :
+    Fees.bytesToWords (List.replicate (8 * k) 0 ++ rest)
+      = List.replicate k 0 ++ Fees.bytesToWords rest := by
+  induction k with
+  | zero => simp
+  | succ k ih =>
+    have e : List.replicate (8 * (k + 1)) (0 : UInt8)
+        = 0 :: 0 :: 0 :: 0 :: 0 :: 0 :: 0 :: 0 :: List.replicate (8 * k) 0 := by
+      have : 8 * (k + 1) = 8 * k + 1 + 1 + 1 + 1 + 1 + 1 + 1 + 1 := by omega
+      rw [this]
+      simp only [List.replicate_succ]
+    rw [e]
+    simp only [List.cons_append, Fees.bytesToWords, ih]
+    simp [Fees.readBE64, List.replicate_succ]
+
+/-- the genesis fee bytes, decoded by the C13 fee-manager model: last-update time 0 and, for
+every dimension, unit price = the configured minimum price, an all-zero window, zero
+consumption -/
+theorem genesis_unit_prices_are_min (a b c d e : Nat) (ha : a ≤ maxU64) (hb : b ≤ maxU64)
+    (hc : c ≤ maxU64) (hd : d ≤ maxU64) (he : e ≤ maxU64) :
+    let raw := Fees.bytesToWords (feeBytes [a, b, c, d, e])
+    Fees.decode raw =
+      { ts := 0, dims := [a, b, c, d, e].map fun p =>
+          { price := p, window := Window.zeros, consumed := 0 } } := by
+  intro raw
+  have hz : (0 : Nat) ≤ maxU64 := by simp [maxU64]
+  have hw : windowSliceSize = 8 * 10 := rfl
+  have hraw : raw = [0, a, 0,0,0,0,0,0,0,0,0,0, 0, b, 0,0,0,0,0,0,0,0,0,0, 0,
+      c, 0,0,0,0,0,0,0,0,0,0, 0, d, 0,0,0,0,0,0,0,0,0,0, 0, e, 0,0,0,0,0,0,0,0,0,0, 0] := by
+    simp only [raw, feeBytes, feeDimensions, List.take_succ_cons, List.take_zero, List.flatMap_cons,
+      List.flatMap_nil, feeDim, hw, List.append_assoc, List.append_nil]
+    simp only [b2w_be64 _ hz, b2w_be64 _ ha, b2w_be64 _ hb, b2w_be64 _ hc, b2w_be64 _ hd,
+      b2w_be64 _ he, b2w_zeros]
+    have : be64 0 = be64 0 ++ [] := by simp
+    rw [this, b2w_be64 _ hz]
+    simp [Fees.bytesToWords, List.replicate_succ]
+  rw [hraw]
+  rfl
 
 /-- **C27 (reusable genesis)** — in the model `InitializeState` / `NewGenesisCommit` are pure
 functions of the genesis value `(c, allocs)`: the value is an input only (it cannot be
